@@ -11,13 +11,13 @@ pub fn match_path(&self, path: &PathS, is_dir: bool, env: &mut IEnv) -> (r: Matc
         final(env).mark@ == old(env).consulted@.len(),
         // only ignore files of directories that contain the path are matched against it, nearest directory first, each at most once; every
         // file consulted before the deciding one said nothing; the verdict is the deciding file's answer
-        walk_ok(*path, is_dir, cur(final(env)), view_match(r)), // OBL:C03.match_path.walk_in_scope_nearest_first_verdict_of_the_nearest_match
+        walk_ok(*path, is_dir, cur(final(env)), view_match(r)), // OBL:C03+C14.match_path.walk_in_scope_nearest_first_verdict_of_the_nearest_match
         // the files asked are the ones stored in the filter for those directories, asked in the mode the path's position calls for
         forall|i: int| 0 <= i < cur(final(env)).len() ==> self.ignores.m@.contains_key((#[trigger] cur(final(env))[i]).g.root)
-            && self.ignores.m@[cur(final(env))[i].g.root].gitignore == cur(final(env))[i].g && cur(final(env))[i].parents == path_anc(self.origin, *path), // OBL:C03.match_path.asks_the_stored_file_of_each_directory
+            && self.ignores.m@[cur(final(env))[i].g.root].gitignore == cur(final(env))[i].g && cur(final(env))[i].parents == path_anc(self.origin, *path), // OBL:C03+C14.match_path.asks_the_stored_file_of_each_directory
         // completeness: "nearest directory first, then farther ones, then global files": when no file matched, every stored ignore file
         // of a directory that contains the path was consulted
-        view_match(r) is None ==> covered_all(self.ignores.m@, *path, cur(final(env))), // OBL:C03.match_path.no_applicable_ignore_file_is_skipped
+        view_match(r) is None ==> covered_all(self.ignores.m@, *path, cur(final(env))), // OBL:C03+C14.match_path.no_applicable_ignore_file_is_skipped
 //@ prologue
 broadcast use axiom_parent_shorter, axiom_str_prefix_len, axiom_anc_is_str_prefix;
 env.mark = Ghost(env.consulted@.len() as int);
@@ -25,12 +25,12 @@ env.p = Ghost(*path);
 //@ loop 0
 invariant
     wf_filter(self), env.p@ == *path, env.mark@ == old(env).consulted@.len(), env.consulted@.len() >= env.mark@, env.consulted@.subrange(0, env.mark@) =~= old(env).consulted@,
-    walk_ok(*path, is_dir, cur(env), Match::<Glob>::None), // OBL:C03.match_path.inv_walk_so_far
+    walk_ok(*path, is_dir, cur(env), Match::<Glob>::None), // OBL:C03+C14.match_path.inv_walk_so_far
     cur(env).len() > 0 ==> disp_len(*search_path) < disp_len(cur(env).last().g.root),
     forall|i: int| 0 <= i < cur(env).len() ==> self.ignores.m@.contains_key((#[trigger] cur(env)[i]).g.root)
-        && self.ignores.m@[cur(env)[i].g.root].gitignore == cur(env)[i].g && cur(env)[i].parents == path_anc(self.origin, *path), // OBL:C03.match_path.inv_asks_the_stored_files
-    path_anc(*search_path, *path), // OBL:C03.match_path.inv_search_stays_on_the_ancestor_chain
-    covered_below(self.ignores.m@, *path, *search_path, cur(env)), // OBL:C03.match_path.inv_every_nearer_ignore_file_consulted
+        && self.ignores.m@[cur(env)[i].g.root].gitignore == cur(env)[i].g && cur(env)[i].parents == path_anc(self.origin, *path), // OBL:C03+C14.match_path.inv_asks_the_stored_files
+    path_anc(*search_path, *path), // OBL:C03+C14.match_path.inv_search_stays_on_the_ancestor_chain
+    covered_below(self.ignores.m@, *path, *search_path, cur(env)), // OBL:C03+C14.match_path.inv_every_nearer_ignore_file_consulted
 decreases disp_len(*search_path),
 //@ item FileType
 //@ item IgnoreFilterer
@@ -57,6 +57,6 @@ invariant
 pub fn check_dir(&self, path: &PathS, env: &mut IEnv) -> (r: bool)
     requires wf_filter(self),
     ensures
-        walk_ok(*path, true, cur(final(env)), verdict_of(cur(final(env)), *path, true)) && r == !ignored(verdict_of(cur(final(env)), *path, true), *path), // OBL:C03.check_dir.pass_unless_an_in_scope_ignore
+        walk_ok(*path, true, cur(final(env)), verdict_of(cur(final(env)), *path, true)) && r == !ignored(verdict_of(cur(final(env)), *path, true), *path), // OBL:C03+C14.check_dir.pass_unless_an_in_scope_ignore
         final(env).mark@ == old(env).consulted@.len(),
 //@ end
